@@ -9,6 +9,8 @@
 #include <gmssl/pem.h>
 #include <gmssl/mem.h>
 #include <gmssl/sm3.h>
+#include <gmssl/sm9.h>
+#include <gmssl/sm9_z256.h>
 
 static uint64_t *Z(const char *hex) {
 	uint64_t *r = malloc(32); int i, j; size_t l = strlen(hex);
@@ -256,6 +258,27 @@ static void handle(size_t nw, char **w) {
 		r = sm2_z256_point_from_hex(P, hex);
 		if (r == 1) { printf("1 "); pp(P); printf(" %d", sm2_z256_point_equ_hex(P, hex)); } else printf("%d", r);
 		free(P); free(hex);
+	}
+	/* ---------- SM9 point import: raw octets and the containers that embed them ---------- */
+	else if ((IS("sm9g1") || IS("sm9sig") || IS("sm9encmpk")) && nw == 2) {
+		buf_t b = exact(w[1]); uint8_t *o = malloc(65); int r = -1; const uint8_t *p = b.p; size_t l = b.n;
+		SM9_Z256_POINT *P = malloc(sizeof(*P)); memset(P, 0xA5, sizeof(*P));
+		if (IS("sm9g1")) { if (b.n == 65) r = sm9_z256_point_from_uncompressed_octets(P, b.p); }
+		else if (IS("sm9sig")) { SM9_SIGNATURE *sg = malloc(sizeof(*sg)); memset(sg, 0xA5, sizeof(*sg));
+			r = sm9_signature_from_der(sg, &p, &l); if (r == 1 && l == 0) *P = sg->S; else r = -1; free(sg); }
+		else { SM9_ENC_MASTER_KEY *mk = malloc(sizeof(*mk)); memset(mk, 0xA5, sizeof(*mk));
+			r = sm9_enc_master_public_key_from_der(mk, &p, &l); if (r == 1 && l == 0) *P = mk->Ppube; else r = -1; free(mk); }
+		if (r == 1) { sm9_z256_point_to_uncompressed_octets(P, o); printf("1 "); puthex(o + 1, 64); } else printf("-1");
+		free(P); free(o); release(b);
+	}
+	else if ((IS("sm9g2") || IS("sm9signmpk")) && nw == 2) {
+		buf_t b = exact(w[1]); uint8_t *o = malloc(129); int r = -1; const uint8_t *p = b.p; size_t l = b.n;
+		SM9_Z256_TWIST_POINT *P = malloc(sizeof(*P)); memset(P, 0xA5, sizeof(*P));
+		if (IS("sm9g2")) { if (b.n == 129) r = sm9_z256_twist_point_from_uncompressed_octets(P, b.p); }
+		else { SM9_SIGN_MASTER_KEY *mk = malloc(sizeof(*mk)); memset(mk, 0xA5, sizeof(*mk));
+			r = sm9_sign_master_public_key_from_der(mk, &p, &l); if (r == 1 && l == 0) *P = mk->Ppubs; else r = -1; free(mk); }
+		if (r == 1) { sm9_z256_twist_point_to_uncompressed_octets(P, o); printf("1 "); puthex(o + 1, 128); } else printf("-1");
+		free(P); free(o); release(b);
 	}
 	else printf("ERR unknown-op");
 }
